@@ -17,6 +17,35 @@ def showSt (s : St) (to : List Nat) (out : List C22.Resp) : String :=
   let last := if s.z.sub.isSome then toString s.last else "-"
   s!"ok last={last} {C22.showSess s.z out} to={natList to}"
 
+/-! ### arm tags -/
+
+def cmp3i (name : String) (a b : Int) : String :=
+  if a < b then s!"{name}:lt" else if a = b then s!"{name}:eq" else s!"{name}:gt"
+
+/-- per queued request: the hint rule and the expiry comparison at its boundary -/
+def expireTags (s : St) (now : Int) : List String :=
+  (s.z.reqs.map (lookup s.hdrs)).flatMap fun r =>
+    [if r.hint = 0 then "hint:zero" else cmp3i "hint-vs-timeout" r.hint s.timeout,
+     if now < r.ts then "expire:timestamp-ahead"
+     else cmp3i "expire:elapsed-vs-timeout" (now - r.ts) ((effTimeout s.timeout r.hint : Int) * 1000)]
+    ++ (if r.ts = -(10 : Int) ^ 18 then ["ts:null"] else if r.ts = (10 : Int) ^ 18 then ["ts:end"] else [])
+
+def elapsedTags (s : St) (now : Int) : List String :=
+  match s.z.sub with
+  | none => ["tick:nosub"]
+  | some sub =>
+    if sub.state = .creating then ["tick:creating"]
+    else if now < s.last then ["tick:clock-backwards"]
+    else [cmp3i "tick:elapsed-vs-interval" (now - s.last) s.interval]
+
+def itemTags (samp last now : Int) (e : Bool) : List String :=
+  if samp < 0 then [if e then "item:minus1-elapsed" else "item:minus1-notelapsed"]
+  else if samp = 0 then ["item:zero"]
+  else if now < last then ["item:clock-backwards"]
+  else [cmp3i "item:elapsed-vs-sampling" (now - last) samp]
+
+def tagStr (tags : List String) : String := " @@ " ++ ",".intercalate tags.eraseDups
+
 def initSt (timeout : Int) (interval : Nat) : Option St :=
   let z0 := { sub := some (C22.mk 60 5 true false), reqs := [] : C22.Sess }
   match C22.sessTick z0 true true with
@@ -38,30 +67,36 @@ def dstep (d : DState) (toks : List String) : DState × String :=
   | ["cycle", n] =>
     match parseInt? n with
     | some n =>
+      let tags := expireTags d.st n ++
+        (match expireStep true d.st n with | some (s1, _) => elapsedTags s1 n | none => [])
+        ++ (if d.st.z.reqs.isEmpty then ["expire:queue-empty"] else [])
       match cycle true d.st n with
-      | some (s, o) => ({ d with st := s }, showSt s o.timedOut o.resps)
-      | none => (d, "panic")
+      | some (s, o) => ({ d with st := s }, showSt s o.timedOut o.resps
+          ++ tagStr (tags ++ [if o.timedOut.isEmpty then "cycle:no-timeout" else "cycle:timeout",
+                              if o.resps.isEmpty then "cycle:no-response" else "cycle:response"]))
+      | none => (d, "panic" ++ tagStr tags)
     | none => (d, "bad-op")
   | ["expire", n] =>
     match parseInt? n with
     | some n =>
+      let tags := expireTags d.st n ++ (if d.st.z.reqs.isEmpty then ["expire:queue-empty"] else [])
       match expireStep true d.st n with
-      | some (s, to) => ({ d with st := s }, showSt s to [])
-      | none => (d, "panic")
+      | some (s, to) => ({ d with st := s }, showSt s to [] ++ tagStr (tags ++ [s!"expire:out{min to.length 2}"]))
+      | none => (d, "panic" ++ tagStr tags)
     | none => (d, "bad-op")
   | ["pub", r, ts, h, _n] =>
     match r.toNat?, parseTs? ts, h.toNat? with
     | some r, some ts, some h =>
       match publish d.st { rid := r, ts := ts, hint := h } with
-      | .ok s out => ({ d with st := s }, "ok res=ok " ++ (showSt s [] out).drop 3)
-      | .tooMany s out => ({ d with st := s }, "ok res=toomany " ++ (showSt s [] out).drop 3)
+      | .ok s out => ({ d with st := s }, "ok res=ok " ++ (showSt s [] out).drop 3 ++ tagStr ["pub:ok"])
+      | .tooMany s out => ({ d with st := s }, "ok res=toomany " ++ (showSt s [] out).drop 3 ++ tagStr ["pub:toomany"])
       | .panic => (d, "panic")
     | _, _, _ => (d, "bad-op")
   | ["itick", n, e] =>
     match parseInt? n, parseBool? e with
     | some n, some e =>
       match itemTick true d.samp d.itemLast n e with
-      | some (r, l) => ({ d with itemLast := l }, s!"ok r={r} last={l}")
+      | some (r, l) => ({ d with itemLast := l }, s!"ok r={r} last={l}" ++ tagStr (itemTags d.samp d.itemLast n e))
       | none => (d, "panic")
     | _, _ => (d, "bad-op")
   | _ => (d, "bad-op")
